@@ -1,3 +1,504 @@
-import Lomond.Model.Core
+/-
+  C04 — protocol violations are detected, reported once, and fail the connection.
+  Property theorems only (helper lemmas: Proofs/Violation.lean).
+
+  All statements are about the shared core model (Model/Core.lean) in its repaired variant
+  (`ctrlLen = true`) unless a theorem says otherwise; the pinned commit's behaviour is the
+  variant `ctrlLen = false` (finding D1), for which `no_len_check_fails` gives the witness.
+
+  Reading guide.  `feedLoop data s` is `Parser.feed`'s loop with the whole lazy pipeline (stream,
+  message, websocket, session bookkeeping, application, timers) run after every parser output;
+  `feedBody` is `stream.feed(data)` driven inside `WebSocket.feed`'s `try` body, `wsFeed` is
+  `WebSocket.feed` with its `except` clauses, `loop`/`runBody`/`runAll` are `session.run()`.
+  The trace (`Sys.trace`, newest first) records every event handed to the application, every
+  write, every result of an application call.
+-/
+import Lomond.Proofs.Violation
+
 namespace Lomond.C04
+open Lomond Lomond.Core
+
+/-! ## 1. All 65 536 two-byte headers -/
+
+/-- **Header classes.**  The parser is at a frame boundary (`AwaitHeader`), in any system state
+    (any configuration with the repaired length rule, any application, extension negotiated or
+    not, inside a fragmented message or not).  The two header bytes `b0 b1` are followed by a
+    complete body (`WireBody`: extended length of the announced form, masking key iff MASK=1,
+    payload of the announced length; the 126/127 forms announce more than 125 bytes).  The
+    payload does not by itself fail the incremental UTF-8 check (`hutf`; a separate class).
+    Then the feed ends with a *header-level* ProtocolError — one of the seven texts in
+    `headerMsgs` — **exactly when** the RFC 6455 classification `Spec.headerVerdict`, written
+    independently from the RFC's bit diagram, says the header is a violation: RSV2/RSV3 set,
+    RSV1 without permessage-deflate, reserved opcode 3–7/11–15, control frame with FIN=0 or a
+    7-bit length above 125, MASK=1, continuation with nothing to continue, new data frame inside
+    a fragmented message. -/
+theorem header_classes (s : Sys) (hv : s.cfg.v.ctrlLen = true) (hs : AwaitHeader s.p)
+    (b0 b1 : Nat) (hb0 : b0 < 256) (hb1 : b1 < 256)
+    (ext key payload : Bytes) (hw : WireBody b1 ext key payload)
+    (hutf : Utf8.validate s.p.dfa payload ≠ none) :
+    (∃ msg ∈ headerMsgs, ∃ s', feedLoop ([b0, b1] ++ (ext ++ (key ++ payload))) s = .err (.protocol msg) s')
+      ↔ Spec.headerVerdict s.p.compression (decide (s.frames ≠ [])) b0 b1 = .violation := by
+  rw [headerVerdict_iff _ _ _ _ hb0 hb1]
+  constructor
+  · intro ⟨msg, hm, s', e⟩
+    by_cases hviol : parserViol s.p.compression b0 b1 ∨ fragViol (decide (s.frames ≠ [])) b0
+    · exact hviol
+    · exact absurd e (header_legal s hv hs b0 b1 hb1 ext key payload hw hviol msg hm s')
+  · intro hviol
+    obtain ⟨x, p'', e, hx⟩ := header_violation s hv hs b0 b1 hb1 ext key payload [] hw hviol
+    rw [List.append_nil] at e
+    rcases hx with ⟨_, hval⟩ | ⟨msg, hm, rfl⟩
+    · exact absurd hval hutf
+    · exact ⟨msg, hm, _, e⟩
+
+/-- **A violating header stops everything.**  Same situation without the UTF-8 proviso and with
+    arbitrary bytes `rest` after the frame: the feed ends with an exception that `WebSocket.feed`
+    reports as a ProtocolError (a header-level `ProtocolError`, or the parser's "invalid utf8"
+    when the violating frame's own payload fails the UTF-8 check first); nothing of the frame is
+    delivered and `rest` is never processed — the system state is unchanged except for the
+    parser (`{ s with p := _ }`: same trace, same event history, same fragment list, same
+    counters). -/
+theorem header_violation_stops (s : Sys) (hv : s.cfg.v.ctrlLen = true) (hs : AwaitHeader s.p)
+    (b0 b1 : Nat) (hb0 : b0 < 256) (hb1 : b1 < 256)
+    (ext key payload rest : Bytes) (hw : WireBody b1 ext key payload)
+    (hviol : Spec.headerVerdict s.p.compression (decide (s.frames ≠ [])) b0 b1 = .violation) :
+    ∃ x p'', feedLoop ([b0, b1] ++ (ext ++ (key ++ (payload ++ rest)))) s = .err x { s with p := p'' } ∧
+      ((x = .parse "invalid utf8" ∧ Utf8.validate s.p.dfa payload = none) ∨
+       ∃ msg ∈ headerMsgs, x = .protocol msg) :=
+  header_violation s hv hs b0 b1 hb1 ext key payload rest hw
+    ((headerVerdict_iff _ _ _ _ hb0 hb1).mp hviol)
+
+/-- the parser-level classes come with the text the code raises, in the order the code tests:
+    the model's message for a header is `parserMsg`, and a header it accepts is handed on
+    (`BodyOutcome`: UTF-8 failure of the payload, MASK=1 rejected after the payload, or the frame
+    reaches the stream layer with the parser back at a frame boundary) -/
+theorem parser_verdict (s : Sys) (hv : s.cfg.v.ctrlLen = true) (hs : AwaitHeader s.p) (b0 b1 : Nat)
+    (ext key payload rest : Bytes) (hw : WireBody b1 ext key payload) :
+    match parserMsg s.p.compression b0 b1 with
+    | some msg => ∃ p'', feedLoop ([b0, b1] ++ (ext ++ (key ++ (payload ++ rest)))) s
+                    = .err (.protocol msg) { s with p := p'' }
+    | none => BodyOutcome s (hdrFrameV b0 (if decide (b1 ≥ 128) then some key else none)) s.p.dfa
+                s.p.compression payload rest
+                (feedLoop ([b0, b1] ++ (ext ++ (key ++ (payload ++ rest)))) s) :=
+  parse_frame s hv hs b0 b1 ext key payload rest hw
+
+/-- a connected, idle system at a frame boundary (used by the examples) -/
+def idle : Sys :=
+  { cfg := {}, react := fun _ => [], env := [], sockOpen := true, parsedResponse := true,
+    p := { cont := .hdr2, remPred := 1 } }
+
+/-- the same with an open fragmented text message -/
+def midText : Sys := { idle with frames := [{ opcode := 1, payload := [97], fin := 0 }], p := { idle.p with isText := true } }
+
+-- non-vacuity: a reserved opcode (0x8B), an oversize Ping in the 126 form, a masked Text, an
+-- orphan continuation, a new Text inside a fragmented message: all violations, all rejected
+example : ∃ msg ∈ headerMsgs, ∃ s', feedLoop ([0x8B, 5] ++ ([] ++ ([] ++ [1, 2, 3, 4, 5]))) idle
+    = .err (.protocol msg) s' :=
+  (header_classes idle rfl ⟨rfl, rfl, rfl, rfl⟩ 0x8B 5 (by decide) (by decide) [] [] [1, 2, 3, 4, 5]
+    ⟨by decide, by decide, by decide, by decide, by decide, by decide⟩ (by decide)).mpr (by decide)
+
+example : ∃ msg ∈ headerMsgs, ∃ s', feedLoop ([0x89, 126] ++ ([0, 130] ++ ([] ++ List.replicate 130 7))) idle
+    = .err (.protocol msg) s' :=
+  (header_classes idle rfl ⟨rfl, rfl, rfl, rfl⟩ 0x89 126 (by decide) (by decide) [0, 130] [] (List.replicate 130 7)
+    ⟨by decide, by simp [beVal], by decide, by decide, by simp, by simp⟩ (by decide)).mpr (by decide)
+
+example : ∃ msg ∈ headerMsgs, ∃ s', feedLoop ([0x81, 0x82] ++ ([] ++ ([1, 2, 3, 4] ++ [104, 105]))) idle
+    = .err (.protocol msg) s' :=
+  (header_classes idle rfl ⟨rfl, rfl, rfl, rfl⟩ 0x81 0x82 (by decide) (by decide) [] [1, 2, 3, 4] [104, 105]
+    ⟨by decide, by decide, by decide, by decide, by decide, by decide⟩ (by decide)).mpr (by decide)
+
+example : Spec.headerVerdict false false 0x80 1 = .violation ∧ Spec.headerVerdict false true 0x80 1 = .ok ∧
+    Spec.headerVerdict false true 0x81 1 = .violation ∧ Spec.headerVerdict false true 0x89 0 = .ok ∧
+    Spec.headerVerdict false false 0xC1 1 = .violation ∧ Spec.headerVerdict true false 0xC1 1 = .ok := by decide
+
+-- … and a legal header is not: a 5-byte unfragmented Text on an idle stream
+example : ∀ msg ∈ headerMsgs, ∀ s', feedLoop ([0x81, 5] ++ ([] ++ ([] ++ [104, 101, 108, 108, 111]))) idle
+    ≠ .err (.protocol msg) s' := by
+  intro msg hm s' e
+  have := (header_classes idle rfl ⟨rfl, rfl, rfl, rfl⟩ 0x81 5 (by decide) (by decide) [] [] [104, 101, 108, 108, 111]
+    ⟨by decide, by decide, by decide, by decide, by decide, by decide⟩ (by decide)).mp ⟨msg, hm, s', e⟩
+  revert this; decide
+
+example : midText.frames ≠ [] ∧ AwaitHeader midText.p := ⟨by decide, ⟨rfl, rfl, rfl, rfl⟩⟩
+
+/-! ## 2. Lengths of 2^63 and more -/
+
+/-- **length_2_63.**  A frame announcing the 64-bit length form whose value has the top bit set
+    (≥ 2^63) is answered with `ProtocolError("payload is too large")` as soon as the eight length
+    bytes have arrived: no payload is awaited, nothing after the length field is read, the state
+    is untouched except for the parser.  (All variants, all states at a frame boundary.) -/
+theorem length_2_63 (s : Sys) (hs : AwaitHeader s.p) (b0 b1 : Nat) (h127 : b1 % 128 = 127)
+    (ext rest : Bytes) (he : ext.length = 8) (hbig : beVal ext ≥ 2 ^ 63) :
+    ∃ p'', feedLoop ([b0, b1] ++ (ext ++ rest)) s
+      = .err (.protocol "payload is too large") { s with p := p'' } :=
+  too_large s hs b0 b1 h127 ext rest he hbig
+
+example : beVal [128, 0, 0, 0, 0, 0, 0, 0] ≥ 2 ^ 63 ∧ (127 : Nat) % 128 = 127 := by decide
+
+/-! ## 3. Fragmentation rules -/
+
+/-- **continuation_rules.**  `WebsocketStream.feed` answers a data frame with
+    "continuation frame has nothing to continue" exactly when it is a continuation and no
+    fragmented message is open, with "continuation frame expected" exactly when it is not a
+    continuation and one is open — in both cases before touching any state — and with neither
+    (nor any other header-level error) otherwise. -/
+theorem continuation_rules (f : Frame) (s : Sys) :
+    ((f.isContinuation = true ∧ s.frames = []) →
+        onDataFrame f s = .err (.protocol "continuation frame has nothing to continue") s) ∧
+    ((f.isContinuation = false ∧ s.frames ≠ []) →
+        onDataFrame f s = .err (.protocol "continuation frame expected") s) ∧
+    ((∃ s', onDataFrame f s = .err (.protocol "continuation frame has nothing to continue") s')
+        ↔ (f.isContinuation = true ∧ s.frames = [])) ∧
+    ((∃ s', onDataFrame f s = .err (.protocol "continuation frame expected") s')
+        ↔ (f.isContinuation = false ∧ s.frames ≠ [])) := by
+  have h1 : (f.isContinuation = true ∧ s.frames = []) →
+      onDataFrame f s = .err (.protocol "continuation frame has nothing to continue") s :=
+    fun ⟨a, b⟩ => onDataFrame_nothing f s a b
+  have h2 : (f.isContinuation = false ∧ s.frames ≠ []) →
+      onDataFrame f s = .err (.protocol "continuation frame expected") s :=
+    fun ⟨a, b⟩ => onDataFrame_expected f s a b
+  have key : ∀ msg ∈ headerMsgs, ∀ s', onDataFrame f s = .err (.protocol msg) s' →
+      (f.isContinuation = true ∧ s.frames = []) ∨ (f.isContinuation = false ∧ s.frames ≠ []) := by
+    intro msg hm s' e
+    by_cases c1 : f.isContinuation = true ∧ s.frames = []
+    · exact Or.inl c1
+    · by_cases c2 : f.isContinuation = false ∧ s.frames ≠ []
+      · exact Or.inr c2
+      · exact absurd rfl (streamErr_not_header _ (onDataFrame_accept f s c1 c2 _ _ e) msg hm)
+  refine ⟨h1, h2, ⟨?_, fun h => ⟨s, h1 h⟩⟩, ⟨?_, fun h => ⟨s, h2 h⟩⟩⟩
+  · intro ⟨s', e⟩
+    rcases key _ (by simp [headerMsgs]) s' e with c | c
+    · exact c
+    · rw [h2 c] at e; injection e with e1; injection e1 with e1; exact absurd e1 (by decide)
+  · intro ⟨s', e⟩
+    rcases key _ (by simp [headerMsgs]) s' e with c | c
+    · rw [h1 c] at e; injection e with e1; injection e1 with e1; exact absurd e1 (by decide)
+    · exact c
+
+example : onDataFrame { opcode := 0, payload := [1] } idle
+    = .err (.protocol "continuation frame has nothing to continue") idle :=
+  (continuation_rules _ _).1 ⟨rfl, rfl⟩
+example : onDataFrame { opcode := 2, payload := [1] } midText
+    = .err (.protocol "continuation frame expected") midText :=
+  (continuation_rules _ _).2.1 ⟨rfl, by decide⟩
+
+/-! ## 4. Close frames -/
+
+/-- **close_code_reserved.**  The library's table of codes a peer must not send
+    (`Status.invalid_codes`, regenerated from the source as `Gen.invalidCodeRanges`) is exactly
+    RFC 6455 §7.4's set: 0–999, 1004, 1005, 1006, 1014–2999. -/
+theorem close_code_reserved (c : Nat) :
+    isInvalidCode c = true ↔ c < 1000 ∨ c = 1004 ∨ c = 1005 ∨ c = 1006 ∨ (1014 ≤ c ∧ c ≤ 2999) :=
+  isInvalidCode_iff c
+
+/-- **close_payload_rules.**  `Close.from_payload` and `_on_close`, for every payload:
+    * one byte ⇒ `ProtocolError("invalid close frame payload")`;
+    * empty ⇒ a Close message without code and with empty reason;
+    * two bytes or more: the reason is the rest; if it is not well-formed UTF-8 (RFC 3629) ⇒ a
+      critical protocol error; if it is ⇒ the code is the big-endian value of the first two bytes
+      and the reason decodes exactly (re-encoding gives the bytes received; scalar values only);
+    * a reserved code makes `_on_close` raise `ProtocolError("reserved close code (c)")` before
+      any event is yielded or any state changed; any other code passes that test. -/
+theorem close_payload_rules :
+    (∀ pl : Bytes, pl.length = 1 → closeFromPayload pl = .error (.protocol "invalid close frame payload")) ∧
+    closeFromPayload [] = .ok (.close none []) ∧
+    (∀ c0 c1 rb, Utf8.wf rb = false →
+        closeFromPayload (c0 :: c1 :: rb) = .error (.critical "close frame contains invalid utf-8") ∨
+        closeFromPayload (c0 :: c1 :: rb) = .error (.critical "invalid utf-8 in close reason")) ∧
+    (∀ c0 c1 rb, Utf8.wf rb = true →
+        ∃ cps, closeFromPayload (c0 :: c1 :: rb) = .ok (.close (some (c0 * 256 + c1)) cps) ∧
+          Utf8.decode rb = some cps ∧ Utf8.encode cps = rb ∧ ∀ c ∈ cps, Utf8.isScalar c = true) ∧
+    (∀ c r s, Spec.reservedCloseCode c →
+        onClose (some c) r s = .err (.protocol s!"reserved close code ({c})") s) ∧
+    (∀ c s, (∀ n, c = some n → ¬ Spec.reservedCloseCode n) → checkCloseCode c s = .ok () s) :=
+  ⟨closeFromPayload_one, closeFromPayload_nil, closeFromPayload_bad, closeFromPayload_good,
+   fun c r s h => onClose_reserved c r s h, fun c s h => onClose_allowed c [] s h⟩
+
+/-- **Close frames through the whole pipeline.**  At a frame boundary, an unfragmented unmasked
+    Close frame of legal length whose payload is one byte long, or carries a reserved status
+    code, or a reason that is not well-formed UTF-8, ends the feed with an exception that
+    `WebSocket.feed` reports as a ProtocolError (`violationOf x` is defined); no Closing/Closed
+    event is yielded, nothing is written, `rest` is not read (state unchanged up to the parser). -/
+theorem close_frame_violation (s : Sys) (hv : s.cfg.v.ctrlLen = true) (hs : AwaitHeader s.p)
+    (payload rest : Bytes) (hlen : payload.length ≤ 125)
+    (hbad : payload.length = 1 ∨
+      ∃ c0 c1 rb, payload = c0 :: c1 :: rb ∧ (Spec.reservedCloseCode (c0 * 256 + c1) ∨ Utf8.wf rb = false)) :
+    ∃ x p'', feedLoop ([0x88, payload.length] ++ (payload ++ rest)) s = .err x { s with p := p'' } ∧
+      (violationOf x).isSome = true :=
+  close_frame_bad s hv hs payload rest hlen hbad
+
+-- 1005 ("no status received") on the wire; a reason cut in the middle of a character
+example : ∃ x p'', feedLoop ([0x88, 2] ++ ([3, 237] ++ [0x81, 1, 65])) idle = .err x { idle with p := p'' } ∧
+    (violationOf x).isSome = true :=
+  close_frame_violation idle rfl ⟨rfl, rfl, rfl, rfl⟩ [3, 237] _ (by decide)
+    (Or.inr ⟨3, 237, [], rfl, Or.inl (by unfold Spec.reservedCloseCode; omega)⟩)
+example : ∃ x p'', feedLoop ([0x88, 4] ++ ([3, 232, 0xE2, 0x82] ++ [])) idle = .err x { idle with p := p'' } ∧
+    (violationOf x).isSome = true :=
+  close_frame_violation idle rfl ⟨rfl, rfl, rfl, rfl⟩ [3, 232, 0xE2, 0x82] _ (by decide)
+    (Or.inr ⟨3, 232, [0xE2, 0x82], rfl, Or.inr (by decide)⟩)
+
+example : closeFromPayload [3] = .error (.protocol "invalid close frame payload") :=
+  close_payload_rules.1 [3] rfl
+example : Spec.reservedCloseCode 1005 ∧ Spec.reservedCloseCode 999 ∧ Spec.reservedCloseCode 2999 ∧
+    ¬ Spec.reservedCloseCode 1000 ∧ ¬ Spec.reservedCloseCode 1013 ∧ ¬ Spec.reservedCloseCode 3000 := by
+  unfold Spec.reservedCloseCode; omega
+example : Utf8.wf [0xE2, 0x82] = false ∧ Utf8.wf [0xE2, 0x82, 0xAC] = true := by decide
+
+/-! ## 5. Reported once; fails the connection -/
+
+/-- **Nothing below the `except` clauses reports.**  Whatever `stream.feed(data)` does inside the
+    `try` body of `WebSocket.feed` — parsing, delivering messages, the application's reactions,
+    timers, pongs, the closing handshake — it never yields a ProtocolError event itself. -/
+theorem silent_below_handler (data : Bytes) (s : Sys) :
+    ∃ l, (feedBody data s).state.trace = l ++ s.trace ∧ ∀ o ∈ l, ∀ m c, o ≠ .ev (.protocolError m c) :=
+  quiet_feedBody data s
+
+/-- **violation_reported_once.**  `WebSocket.feed(data)` on a websocket that is not closed: if
+    the parser / stream / message layers raise `ProtocolError(msg)` (resp. a critical protocol
+    error or a parse error) leaving the system in `s1`, then `feed` ends with an exception `y` in
+    a state `s2` whose trace is `cw ++ l ++ [ProtocolError(msg, critical)] ++ s1.trace` (newest
+    first), where
+    * the ProtocolError event carries the exception's text and appears exactly once here;
+    * `l` — the application's reaction to that event and the timers — is `CalmV`: it contains no
+      message event, no second ProtocolError, no graceful Disconnected;
+    * `cw` — what the library itself writes afterwards — is nothing, or, for a non-critical
+      error only, one Close frame built from code 1002 and the error text;
+    * `y` is `_ForceDisconnect("forced")`, or the ValueError of an over-long Close reason
+      (`other "error"`), or — then nothing was written by the library — an exception raised in
+      `run()`'s frame at the `yield` (the application abandoning the loop, a ping/close
+      time-out). -/
+theorem violation_reported_once (data : Bytes) (s s1 : Sys) (x : Exn) (msg : String) (crit : Bool)
+    (hc : s.closed = false) (hb : feedBody data s = .err x s1) (hx : violationOf x = some (msg, crit)) :
+    ∃ y s2 l cw,
+      wsFeed data s = .err y s2 ∧
+      s2.trace = cw ++ l ++ .ev (.protocolError msg crit) :: s1.trace ∧
+      (∀ o ∈ l, CalmV o) ∧ CloseWrite msg crit cw ∧
+      (y = .forceDisconnect "forced" ∨ y = .other "error" ∨
+       (cw = [] ∧ feedYield false (.protocolError msg crit) s1 = .err (.outer y) s2)) :=
+  wsFeed_violation data s s1 x msg crit hc hb hx
+
+-- non-vacuity: a reserved-opcode frame followed by a later Binary frame, on the idle connection:
+-- the hypotheses of `violation_reported_once` hold (the later frame changes nothing), and the
+-- resulting trace is the ProtocolError event, the reaction, at most one Close frame
+example : ∃ y s2 l cw, wsFeed ([0x8B, 0] ++ [0x82, 1, 65]) idle = .err y s2 ∧
+    s2.trace = cw ++ l ++ [.ev (.protocolError "opcode is reserved" false)] ∧
+    (∀ o ∈ l, CalmV o) ∧ CloseWrite "opcode is reserved" false cw := by
+  obtain ⟨p'', e⟩ := parser_verdict idle rfl ⟨rfl, rfl, rfl, rfl⟩ 0x8B 0 [] [] [] [0x82, 1, 65]
+    ⟨by decide, by decide, by decide, by decide, by decide, by decide⟩
+  have e' : feedLoop ([0x8B, 0] ++ [0x82, 1, 65]) idle
+      = .err (.protocol "opcode is reserved") { idle with p := p'' } := e
+  have hb : feedBody ([0x8B, 0] ++ [0x82, 1, 65]) idle
+      = .err (.protocol "opcode is reserved") { idle with p := p'' } := by
+    unfold feedBody
+    rw [if_neg (by decide), e']
+  obtain ⟨y, s2, l, cw, e2, htr, hl, hcw, _⟩ :=
+    violation_reported_once _ idle _ _ "opcode is reserved" false rfl hb rfl
+  exact ⟨y, s2, l, cw, e2, htr, hl, hcw⟩
+
+/-- **nothing_after_violation** (within a read).  Once `Parser.feed`'s loop has raised on a
+    prefix `a` of a chunk, the result for `a ++ rest` is the very same exception in the very same
+    state: not one byte of `rest` is parsed, no event comes from it.  The same for the loop's
+    `break` (websocket closed / upgrade rejected). -/
+theorem nothing_after_violation (a rest : Bytes) (s s' : Sys) :
+    (∀ x, feedLoop a s = .err x s' → feedLoop (a ++ rest) s = .err x s') ∧
+    (feedLoop a s = .ok false s' → feedLoop (a ++ rest) s = .ok false s') ∧
+    (∀ x, s.p.cont ≠ .header → feedBody a s = .err x s' → feedBody (a ++ rest) s = .err x s') := by
+  refine ⟨fun x h => feedLoop_err_append a rest s s' x h, fun h => ?_,
+    fun x hp h => feedBody_err_append a rest s s' x hp h⟩
+  rw [feedLoop_append, h]; rfl
+
+/-- **Position of the violation: after any prefix.**  Let `pre` be any bytes the loop consumes
+    normally from state `s` (any number of complete messages, fragments, control frames, with the
+    application reacting along the way), ending at a frame boundary in state `sp`.  If a frame
+    with a violating header follows, then feeding `pre ++ frame ++ rest` gives exactly what
+    feeding `pre` alone gave — the same events delivered, the same writes, the same state `sp` —
+    and then the exception: every message completed before the violating frame is delivered
+    normally, nothing of the frame or of `rest` is. -/
+theorem violation_after_prefix (pre : Bytes) (s sp : Sys) (hpre : feedLoop pre s = .ok true sp)
+    (hv : sp.cfg.v.ctrlLen = true) (hs : AwaitHeader sp.p)
+    (b0 b1 : Nat) (hb0 : b0 < 256) (hb1 : b1 < 256)
+    (ext key payload rest : Bytes) (hw : WireBody b1 ext key payload)
+    (hviol : Spec.headerVerdict sp.p.compression (decide (sp.frames ≠ [])) b0 b1 = .violation) :
+    ∃ x p'', feedLoop (pre ++ ([b0, b1] ++ (ext ++ (key ++ (payload ++ rest))))) s
+        = .err x { sp with p := p'' } ∧
+      ((x = .parse "invalid utf8" ∧ Utf8.validate sp.p.dfa payload = none) ∨
+       ∃ msg ∈ headerMsgs, x = .protocol msg) := by
+  obtain ⟨x, p'', e, hx⟩ := header_violation_stops sp hv hs b0 b1 hb0 hb1 ext key payload rest hw hviol
+  refine ⟨x, p'', ?_, hx⟩
+  rw [feedLoop_append, hpre]
+  exact e
+
+-- non-vacuity: a complete Binary message is a prefix of that kind (delivered, back at a frame
+-- boundary), and a Ping with FIN=0 after it is then rejected with the message still delivered
+example : ∃ sp, feedLoop [0x82, 1, 65] idle = .ok true sp ∧ AwaitHeader sp.p ∧ sp.cfg.v.ctrlLen = true ∧
+    sp.trace = [.ev (.binary [65])] ∧
+    ∃ x p'', feedLoop ([0x82, 1, 65] ++ ([0x09, 0] ++ ([] ++ ([] ++ ([] ++ [0x81, 1, 66]))))) idle
+      = .err x { sp with p := p'' } := by
+  have h := parser_verdict idle rfl ⟨rfl, rfl, rfl, rfl⟩ 0x82 1 [] [] [65] []
+    ⟨by decide, by decide, by decide, by decide, by decide, by decide⟩
+  have hpm : parserMsg idle.p.compression 0x82 1 = none := by decide
+  rw [hpm] at h
+  have hvd : Spec.headerVerdict idle.p.compression (decide (idle.frames ≠ [])) 9 0 = .violation := by decide
+  rcases h with ⟨_, _, hval⟩ | ⟨hm, _⟩ | ⟨_, p', ha, hcomp, e⟩
+  · exact absurd hval (by decide)
+  · cases hm
+  · have e1 : onOut (.frame { opcode := 2, payload := [65] }) { idle with p := p' }
+        = .ok true { idle with p := p', trace := [.ev (.binary [65])], hist := [.binary [65]] } := rfl
+    have e' : feedLoop [0x82, 1, 65] idle
+        = .ok true { idle with p := p', trace := [.ev (.binary [65])], hist := [.binary [65]] } := by
+      refine Eq.trans e ?_
+      refine Eq.trans (congrArg (fun r => contLoop r []) e1) ?_
+      exact feedLoop_nil _
+    refine ⟨_, e', ha, rfl, rfl, ?_⟩
+    obtain ⟨x, p'', ex, _⟩ := violation_after_prefix [0x82, 1, 65] idle _ e' rfl ha
+      0x09 0 (by decide) (by decide) [] [] [] [0x81, 1, 66]
+      ⟨by decide, by decide, by decide, by decide, by decide, by decide⟩
+      (by show Spec.headerVerdict p'.compression _ 9 0 = _; rw [hcomp]; exact hvd)
+    exact ⟨x, p'', ex⟩
+
+/-- **later reads are never fed.**  When `WebSocket.feed` raises during a cycle of the session
+    loop, the loop ends with that exception whatever the rest of the environment script holds
+    (further readable data, EOF, time-outs) … -/
+theorem later_reads_not_fed (dt : Nat) (bs : Bytes) (rest : List EnvStep) (s s2 s3 : Sys) (y : Exn)
+    (hc : s.closed = false) (hr : regularTop (tick s dt) = .ok () s2) (hso : s2.sockOpen = true)
+    (hne : bs ≠ []) (hf : wsFeed bs s2 = .err y s3) :
+    loop (.wait dt (some (.data bs)) :: rest) s = .err y s3 :=
+  loop_step_err dt bs rest s s2 s3 y hc hr hso hne hf
+
+/-- … **and `run()` answers with a non-graceful Disconnected**: the exception goes to the
+    `except` clauses; for `_ForceDisconnect("forced")` (and for the `Exception` case) they close
+    the socket and yield `Disconnected(graceful=False)`. -/
+theorem violation_fails_connection (env : List EnvStep) (s s3 : Sys) (y : Exn)
+    (hl : loop env s = .err y s3) :
+    runBody env s = onLoopEnd (some y) s3 ∧
+    (∀ k, y = .forceDisconnect k →
+        onLoopEnd (some y) s3 = (do closeSocket; yieldEv (.disconnected k false) : M Unit) s3) ∧
+    (∀ k, y = .other k →
+        onLoopEnd (some y) s3 = (do closeSocket; yieldEv (.disconnected k false) : M Unit) s3) :=
+  ⟨runBody_of_loop_err env s s3 y hl, fun k h => h ▸ onLoopEnd_forced k s3, fun k h => h ▸ onLoopEnd_other k s3⟩
+
+/-- **A reported violation ends the connection non-gracefully.**  In the situation of
+    `violation_reported_once`, the exception that leaves `WebSocket.feed` is `GeneratorExit` (the
+    application abandoned the event loop at the ProtocolError event — nothing more is yielded), or
+    it is `_ForceDisconnect(k)` / a plain exception `k`, and then — whenever the session loop ends
+    with it — `run()` closes the socket and yields `Disconnected(k, graceful=False)`. -/
+theorem violation_ends_nongraceful (data : Bytes) (s s1 : Sys) (x : Exn) (msg : String) (crit : Bool)
+    (hc : s.closed = false) (hb : feedBody data s = .err x s1) (hx : violationOf x = some (msg, crit)) :
+    ∃ y s2, wsFeed data s = .err y s2 ∧
+      (y = .genExit ∨
+       ∃ k, (y = .forceDisconnect k ∨ y = .other k) ∧
+         ∀ env s0, loop env s0 = .err y s2 →
+           runBody env s0 = (do closeSocket; yieldEv (.disconnected k false) : M Unit) s2) := by
+  obtain ⟨y, s2, e, hy⟩ := wsFeed_violation_exn data s s1 x msg crit hc hb hx
+  refine ⟨y, s2, e, ?_⟩
+  rcases hy with h | ⟨k, h⟩ | h
+  · exact Or.inl h
+  · refine Or.inr ⟨k, Or.inl h, fun env s0 hl => ?_⟩
+    rw [runBody_of_loop_err env s0 s2 y hl, h]; rfl
+  · refine Or.inr ⟨"error", Or.inr h, fun env s0 hl => ?_⟩
+    rw [runBody_of_loop_err env s0 s2 y hl, h]; rfl
+
+/-- **Whole connection.**  For every configuration (every variant), every application and every
+    environment script (server bytes in any segmentation, EOF, errors, time): the complete trace
+    of `run()` contains no ProtocolError event, or exactly one — and then everything after it is
+    `CalmV`: writes, results of application calls, socket/selector release, clock ticks, Poll,
+    Unresponsive and a non-graceful Disconnected; never a Text/Binary/Ping/Pong/Closing/Closed/
+    Ready event, never a second ProtocolError, never a graceful Disconnected. -/
+theorem at_most_one_protocol_error (cfg : Cfg) (react : React) (env : List EnvStep) :
+    (∀ o ∈ (runAll cfg react env).trace, ∀ m c, o ≠ .ev (.protocolError m c)) ∨
+    ∃ post m c pre, (runAll cfg react env).trace = post ++ .ev (.protocolError m c) :: pre ∧
+      (∀ o ∈ post, CalmV o) ∧ (∀ o ∈ pre, ∀ m' c', o ≠ .ev (.protocolError m' c')) :=
+  runAll_trace cfg react env
+
+example : CalmV (.ev (.disconnected "forced" false)) ∧ CalmV (.wr [1]) ∧ ¬ CalmV (.ev (.text [104])) ∧
+    ¬ CalmV (.ev (.protocolError "x" false)) ∧ ¬ CalmV (.ev (.disconnected "closed" true)) :=
+  ⟨trivial, trivial, id, id, id⟩
+
+/-! ## 6. End to end
+
+  The design's end-to-end statement is
+
+      C04_violation : ∀ cfg app pre bad rest cuts, validPrefix pre → Violation (stateAfter pre) bad →
+        let tr := run … (cut cuts (handshake ++ ser pre ++ ser bad ++ rest))
+        events tr = eventsOf pre ++ [protocolError _, disconnected (graceful := false)] ∧
+        libraryWritesAfter tr ⊆ [≤ 1 close frame] ∧ noContentOf bad rest (events tr)
+
+  with `ser`/`eventsOf` the serialisation and expected-event functions of C01.  What is proved
+  here is that statement with "the events of `pre`" expressed as "whatever feeding `pre` alone
+  yields" (`violation_after_prefix`, all prefixes, all positions), for the violation arriving in
+  the same read as its prefix (`violation_end_to_end_partial` below; by C02's
+  `segmentation_independent` the frames-phase loop does not depend on how the bytes are cut),
+  plus the run-level facts `later_reads_not_fed`, `violation_ends_nongraceful` and
+  `at_most_one_protocol_error`.  Missing for the literal statement: the identification of the
+  prefix's events with `eventsOf pre` (that is C01's delivery theorem), and threading the
+  handshake read and several `recv` cycles of `run()` in front of the violating read. -/
+
+/-- **End to end, one read (partial — see above).**  A websocket in the frames phase, not closed;
+    `pre` is consumed normally up to a frame boundary (state `sp`); a frame with a violating
+    header and arbitrary further bytes follow in the same read.  Then `WebSocket.feed` raises, and
+    the trace is: everything feeding `pre` alone produced (`sp.trace`: the earlier messages,
+    delivered normally), then exactly one ProtocolError event, then `CalmV` observations only, then
+    at most one Close frame (1002) written by the library; the exception is `GeneratorExit` (the
+    application left) or leads `run()` to a non-graceful Disconnected. -/
+theorem violation_end_to_end_partial (pre : Bytes) (s sp : Sys) (hc : s.closed = false)
+    (hph : s.p.cont ≠ .header) (hpre : feedLoop pre s = .ok true sp)
+    (hv : sp.cfg.v.ctrlLen = true) (hs : AwaitHeader sp.p)
+    (b0 b1 : Nat) (hb0 : b0 < 256) (hb1 : b1 < 256)
+    (ext key payload rest : Bytes) (hw : WireBody b1 ext key payload)
+    (hviol : Spec.headerVerdict sp.p.compression (decide (sp.frames ≠ [])) b0 b1 = .violation) :
+    ∃ y s2 l cw msg crit,
+      wsFeed (pre ++ ([b0, b1] ++ (ext ++ (key ++ (payload ++ rest))))) s = .err y s2 ∧
+      s2.trace = cw ++ l ++ .ev (.protocolError msg crit) :: sp.trace ∧
+      (∀ o ∈ l, CalmV o) ∧ CloseWrite msg crit cw ∧
+      (y = .genExit ∨ (∃ k, y = .forceDisconnect k) ∨ y = .other "error") := by
+  obtain ⟨x, p'', e, hx⟩ := violation_after_prefix pre s sp hpre hv hs b0 b1 hb0 hb1 ext key payload rest hw hviol
+  have hb : feedBody (pre ++ ([b0, b1] ++ (ext ++ (key ++ (payload ++ rest))))) s
+      = .err x { sp with p := p'' } := by
+    unfold feedBody
+    rw [if_neg hph, e]
+  have hxv : ∃ msg crit, violationOf x = some (msg, crit) := by
+    rcases hx with ⟨rfl, _⟩ | ⟨msg, _, rfl⟩
+    · exact ⟨_, _, rfl⟩
+    · exact ⟨_, _, rfl⟩
+  obtain ⟨msg, crit, hxv⟩ := hxv
+  obtain ⟨y, s2, l, cw, e2, htr, hl, hcw, _⟩ := violation_reported_once _ s _ x msg crit hc hb hxv
+  obtain ⟨y', s2', e3, hy⟩ := wsFeed_violation_exn _ s _ x msg crit hc hb hxv
+  rw [e2] at e3
+  injection e3 with hy1 hy2
+  subst hy1
+  exact ⟨y, s2, l, cw, msg, crit, e2, htr, hl, hcw, hy⟩
+
+-- non-vacuity: `idle` is not closed and in the frames phase; a prefix / violating frame / rest
+-- satisfying the remaining hypotheses is constructed in the example after `violation_after_prefix`
+example : idle.closed = false ∧ idle.p.cont ≠ .header := ⟨rfl, by decide⟩
+
+/-! ## 7. The pinned commit (finding D1) -/
+
+/-- **no_len_check_fails.**  Without the length rule at the point where the length is known
+    (`ctrlLen = false`, the behaviour of the pinned commit), an unfragmented, unmasked Ping
+    announcing 126 bytes in the 16-bit form is *accepted* by the parser; `WebSocket.feed` then
+    dies with the `ValueError` of the automatic Pong (`other "error"`, reported by `run()` as
+    `Disconnected('error; …')`): no ProtocolError event, no Close frame — the only observation is
+    the socket being closed.  The property fails for this variant. -/
+theorem no_len_check_fails :
+    ∃ (s : Sys) (data : Bytes), s.cfg.v.ctrlLen = false ∧ s.closed = false ∧ AwaitHeader s.p ∧
+      data = [0x89, 126, 0, 126] ++ List.replicate 126 0 ∧
+      Spec.headerVerdict false false 0x89 126 = .violation ∧
+      ∃ s', wsFeed data s = .err (.other "error") s' ∧ s'.trace = [.sockClose] := by
+  obtain ⟨s', e, ht⟩ := d1_feedLoop
+  refine ⟨idleD1, _, rfl, rfl, ⟨rfl, rfl, rfl, rfl⟩, rfl, by decide, s', ?_, ht⟩
+  have e' : feedLoop ([0x89, 126, 0, 126] ++ List.replicate 126 0) idleD1 = .err (.outer (.other "error")) s' := by
+    rw [← e]; simp
+  have hb : feedBody ([0x89, 126, 0, 126] ++ List.replicate 126 0) idleD1 = .err (.outer (.other "error")) s' := by
+    unfold feedBody
+    rw [if_neg (by decide), e']
+  rw [wsFeed_of_feedBody_err _ _ _ _ rfl hb]
+  rfl
+
+-- the repaired variant on the same bytes: ProtocolError with the code's text, state untouched
+example : ∃ p'', feedLoop ([0x89, 126] ++ ([0, 126] ++ ([] ++ (List.replicate 126 0 ++ [])))) idle
+    = .err (.protocol "control frames must be <= 125 bytes in length") { idle with p := p'' } :=
+  parser_verdict idle rfl ⟨rfl, rfl, rfl, rfl⟩ 0x89 126 [0, 126] [] (List.replicate 126 0) []
+    ⟨by decide, by simp [beVal], by decide, by decide, by simp, by simp⟩
+
 end Lomond.C04
